@@ -115,7 +115,7 @@ where
             }
         }
 
-        deserializer.deserialize_seq(GraphVisitor {
+        deserializer.deserialize_tuple(2, GraphVisitor {
             _phantom: std::marker::PhantomData,
         })
     }
